@@ -411,7 +411,10 @@ class MiniEval:
                 # pure string functions of the standard library, POSIX flavour (a model of the library, not code of the repository)
                 return _PATH_FUNCS[ast.unparse(f)](*args)
             if isinstance(f.value, ast.Name) and f.value.id == 'self' and f.attr in self.methods:
-                return self.inline(self.methods[f.attr], args, kw, self.env.get('self'))
+                m_ = self.methods[f.attr]
+                if any(isinstance(d, ast.Name) and d.id == 'staticmethod' for d in getattr(m_, 'decorator_list', [])):
+                    return self.inline(m_, args, kw, None)
+                return self.inline(m_, args, kw, self.env.get('self'))
             o = self.ev(f.value)
             for typ, names in _SAFE_METHODS.items():
                 if type(o) is typ and f.attr in names:
